@@ -36,6 +36,18 @@ def _reject_engine_exception(e):
     fname = os.path.abspath(last.tb_frame.f_code.co_filename) if last is not None else ""
     here = os.path.dirname(os.path.abspath(__file__))
     in_engine = fname.startswith(here + os.sep) or (os.sep + "z3" + os.sep) in fname
+    # the interpreter's own "you called this wrongly" errors are raised in the CALLER's frame, so the frame test cannot see
+    # them; when the callee is part of the model they are bugs of the model (a missing keyword, a missing attribute)
+    msg = str(e)
+    import re as _re
+    call_mismatch = isinstance(e, TypeError) and _re.search(r"got an unexpected keyword argument|takes \d+ positional argument|"
+                                                            r"missing \d+ required positional argument|got multiple values for argument", msg)
+    model_attr = isinstance(e, AttributeError) and _re.search(r"'(ndarray|SymInt|SymReal|SymBool|SymStr|dtype|Buffer)' object has no attribute|"
+                                                              r"module 'dverif\.symnp' has no attribute|module 'numpy' has no attribute", msg)
+    if model_attr and "in1d" in msg:
+        model_attr = None           # mirrored on purpose: the installed NumPy has no in1d (libcheck item 4)
+    if call_mismatch or model_attr:
+        raise EngineCrash("%s: %s  [interpreter-raised while calling into the NumPy model]" % (type(e).__name__, e)) from e
     if isinstance(e, z3.Z3Exception) or isinstance(e, RecursionError) or (in_engine and not isinstance(e, _MODELLED)):
         raise EngineCrash("%s: %s  [at %s:%d]" % (type(e).__name__, e, fname, last.tb_lineno if last else -1)) from e
 
